@@ -48,6 +48,11 @@ type mprog struct {
 	Before, After                 []mop
 	Names                         int
 	SecondRestore                 bool
+	// Early > 0: the old databases also took an earlier job checkpoint, after the
+	// first Early operations; the retention update that follows the newer one
+	// (keep only the newer) reached the old databases whose bit is set in Pruned,
+	// so their checkpoints files list different checkpoints
+	Early, Pruned                 int
 	K                             int // a second change of the count (0 = none)
 	Perm2                         []int
 	After2                        []mop
@@ -96,6 +101,10 @@ func genMerge(rt *rapid.T) mprog {
 		}
 	}
 	p.After = genMops(rt, rapid.IntRange(0, 25).Draw(rt, "nafter"), p.Groups, p.Names, "a", written)
+	if rapid.IntRange(0, 2).Draw(rt, "early") == 0 {
+		p.Early = rapid.IntRange(1, len(p.Before)).Draw(rt, "earlyat")
+		p.Pruned = rapid.IntRange(0, 15).Draw(rt, "pruned")
+	}
 	p.SecondRestore = rapid.Bool().Draw(rt, "second")
 	if rapid.Bool().Draw(rt, "third") {
 		p.K = rapid.IntRange(1, 4).Draw(rt, "k")
@@ -199,7 +208,19 @@ func execMerge(p mprog, c *hx.Case) error {
 		}
 		return i, nil
 	}
-	for _, o := range p.Before {
+	finalID := uint64(1)
+	for n, o := range p.Before {
+		if p.Early > 0 && n == p.Early {
+			for i, db := range olds {
+				if _, err := db.Checkpoint(1)(); err != nil {
+					return hx.Errf("earlier checkpoint of old database %d: %v", i, err)
+				}
+				if err := hx.WaitTasks(db.WaitOnTasks); err != nil {
+					return hx.Errf("background task failed: %v", err)
+				}
+			}
+			finalID = 2
+		}
 		if _, err := apply(olds, from, o); err != nil {
 			return err
 		}
@@ -207,7 +228,7 @@ func execMerge(p mprog, c *hx.Case) error {
 	// the checkpoints, recorded in the drawn order
 	handles := make([]recovery.CheckpointHandle, len(olds))
 	for i, db := range olds {
-		h, err := db.Checkpoint(1)()
+		h, err := db.Checkpoint(finalID)()
 		if err != nil {
 			return hx.Errf("checkpoint of old database %d: %v", i, err)
 		}
@@ -215,6 +236,21 @@ func execMerge(p mprog, c *hx.Case) error {
 			return hx.Errf("background task failed: %v", err)
 		}
 		handles[i] = h
+	}
+	unevenFiles := false
+	if finalID == 2 {
+		// the job announces "keep only checkpoint 2"; the announcement reaches some
+		// of the old operators before they are gone
+		for i, db := range olds {
+			if p.Pruned>>uint(i)&1 == 1 {
+				if err := db.UpdateRetainedCheckpoints([]uint64{2}); err != nil {
+					return hx.Errf("retention update at old database %d: %v", i, err)
+				}
+			} else if p.Pruned != 0 {
+				unevenFiles = true
+			}
+		}
+		unevenFiles = unevenFiles && p.Pruned&(1<<uint(len(olds))-1) != 0
 	}
 	flushed := 0
 	for _, f := range fs.List() {
@@ -335,7 +371,7 @@ func execMerge(p mprog, c *hx.Case) error {
 		// every new database is checkpointed and reopened from its own checkpoint
 		again := make([]*dkv.DB, len(news))
 		for j, db := range news {
-			h, err := db.Checkpoint(2)()
+			h, err := db.Checkpoint(finalID + 1)()
 			if err != nil {
 				return hx.Errf("checkpoint of new database %d: %v", j, err)
 			}
@@ -365,7 +401,7 @@ func execMerge(p mprog, c *hx.Case) error {
 		}
 		h2 := make([]recovery.CheckpointHandle, len(news))
 		for j, db := range news {
-			h, err := db.Checkpoint(2)()
+			h, err := db.Checkpoint(finalID + 1)()
 			if err != nil {
 				return hx.Errf("checkpoint of new database %d: %v", j, err)
 			}
@@ -442,6 +478,7 @@ func execMerge(p mprog, c *hx.Case) error {
 		chained = k != p.N
 	}
 	c.LabelIf(chained, "chain-of-two-count-changes")
+	c.LabelIf(unevenFiles, "old-operators-list-different-checkpoints")
 	sorted := slices.IsSortedFunc(perm, func(a, b partitioning.KeyGroupRange) int { return a.Start - b.Start })
 	c.LabelIf(p.M != p.N, "M!=N")
 	c.LabelIf(!sorted, "non-identity-record-order")
@@ -455,5 +492,5 @@ func execMerge(p mprog, c *hx.Case) error {
 }
 
 func TestPropMergeRestore(t *testing.T) {
-	hx.Run(t, hx.Spec{Prop: "C06", Persist: true, Rule: "the databases under a rescale, without operators: M=1..4 dkv.DB instances own the ranges of NewKeySpace(groups, M) (groups 1..16, memtable 64 B..1 MB, small tables, drawn compaction tuning) and take 1..60 puts/deletes/waits of key-group-prefixed keys with colliding names; each is checkpointed; the handles are recorded in a drawn order and N=1..4 new instances are opened with the handles AssignRanges gives them (LoadCheckpointList merge, ownership-filtered WAL replay, sequence numbers resumed); every key is read through Get and ScanPrefix at its new owner and compared with a map model, 0..25 further writes follow (two in three return to entries written before the checkpoint, the latest first), checked after each and after compactions settled, and in half of the cases every new instance is checkpointed and restored once more, or (a quarter) checkpointed and restored into a third count K with another record order and further writes (where the checkpoints would put intersecting tables into one sorted level this second change is replaced by a same-size restore: open finding; elsewhere it is explored with prefix scans only); non-trivial = M != N, a table flushed before the checkpoint and a restored key rewritten"}, genMerge, execMerge)
+	hx.Run(t, hx.Spec{Prop: "C06", Persist: true, Rule: "the databases under a rescale, without operators: M=1..4 dkv.DB instances own the ranges of NewKeySpace(groups, M) (groups 1..16, memtable 64 B..1 MB, small tables, drawn compaction tuning) and take 1..60 puts/deletes/waits of key-group-prefixed keys with colliding names; each is checkpointed (in a third of the cases twice, with the retention update for the newer checkpoint reaching only a drawn subset, so that their checkpoints files list different checkpoints); the handles are recorded in a drawn order and N=1..4 new instances are opened with the handles AssignRanges gives them (LoadCheckpointList merge, ownership-filtered WAL replay, sequence numbers resumed); every key is read through Get and ScanPrefix at its new owner and compared with a map model, 0..25 further writes follow (two in three return to entries written before the checkpoint, the latest first), checked after each and after compactions settled, and in half of the cases every new instance is checkpointed and restored once more, or (a quarter) checkpointed and restored into a third count K with another record order and further writes (where the checkpoints would put intersecting tables into one sorted level this second change is replaced by a same-size restore: open finding; elsewhere it is explored with prefix scans only); non-trivial = M != N, a table flushed before the checkpoint and a restored key rewritten"}, genMerge, execMerge)
 }
